@@ -219,6 +219,19 @@ def check_registries(ctx: Ctx) -> None:
                     continue
             ctx.check(want_id and want_nm, f, f.node, f"{q}: the object is filed under its own id and its own name", f"self.id2{obj}[{obj}.{idattr}] = {obj}; self.name2{obj}[{obj}.name] = {obj}",
                       "; ".join(f"{short(e.base)}[{short(e.index)}] = {short(e.value)}" for e in sts)[:200] or "no keyed store")
+            # ... and in the group table under the name of its own group only (agents list group names to say which markets they see)
+            gtab = f"self.{obj}s_group_name2{obj}"
+            if obj in ("market", "agent") and not getattr(ctx, f"_c18_group_{obj}", False):
+                gkeys = []
+                for e in p.walk_events():
+                    if e.kind == "call" and e.name in ("append", "extend", "insert") and e.recv is not None and strip_ver(e.recv)[0] == "sub" and key(strip_ver(e.recv)[1]) == gtab:
+                        gkeys.append(strip_ver(e.recv)[2])
+                    if e.kind == "call" and e.name == "setdefault" and e.recv is not None and key(strip_ver(e.recv)) == gtab and e.args:
+                        gkeys.append(strip_ver(e.args[0]))
+                other = [k_ for k_ in gkeys if key(k_) != "group_name"]
+                if other:
+                    setattr(ctx, f"_c18_group_{obj}", True)
+                    ctx.violated(f, f.node, f"{q}: the {obj} is listed in the group table under its own group's name only", f"{gtab}[group_name].append({obj})", f"also listed under {', '.join(sorted({short(k_) for k_ in other}))[:120]}: whoever names that entry now reaches this {obj} as well")
             got = {key(strip_ver(c)): pol for c, pol, _ in p.conds}
             missing = [t for t in tests if got.get(t) is not False]
             if missing:
